@@ -24,6 +24,7 @@
 #include <vf/solvecheck.hpp>
 #include <omp.h>
 #include <memory>
+#include <numeric>
 
 using namespace amgcl;
 using vf::Csr; using vf::J; using vf::Rng; using vf::Case;
@@ -119,7 +120,7 @@ template <template <class> class R> void relax_case(Case &c, const std::string &
 }
 
 static void sub_relax() {
-    long N = vf::tier(60, 900);
+    long N = vf::tier(150, 3000);
     for (long idx = 0; idx < N; ++idx) {
         if (!vf::selected("roworder_relax", idx)) continue;
         Rng r(vf::case_seed("roworder_relax", idx)); std::string fam; Csr<double> A = scalar_matrix(r, idx, fam); bool rev = idx % 4 == 3; Csr<double> Ash = vf::shuffle_rows(A, r, rev);
@@ -133,7 +134,7 @@ static void sub_relax() {
 }
 
 static void sub_amg() {
-    long N = vf::tier(48, 720);
+    long N = vf::tier(144, 2880);
     for (long idx = 0; idx < N; ++idx) {
         if (!vf::selected("roworder_amg", idx)) continue;
         Rng r(vf::case_seed("roworder_amg", idx)); std::string fam; Csr<double> A = scalar_matrix(r, idx, fam); bool rev = idx % 4 == 3; Csr<double> Ash = vf::shuffle_rows(A, r, rev);
@@ -156,7 +157,7 @@ static void sub_amg() {
 }
 
 static void sub_coupled() {
-    long N = vf::tier(40, 600);
+    long N = vf::tier(100, 2000);
     for (long idx = 0; idx < N; ++idx) {
         if (!vf::selected("roworder_coupled", idx)) continue;
         Rng r(vf::case_seed("roworder_coupled", idx)); int b = 2 + (int)(idx % 2); size_t cells; Csr<double> A = reservoir(r, b, cells); bool rev = idx % 4 == 3; Csr<double> Ash = vf::shuffle_rows(A, r, rev); size_t n = A.n;
@@ -179,11 +180,68 @@ static void sub_coupled() {
     }
 }
 
+//---------------------------------------------------------------------------
+// exhaustive: EVERY permutation of the entries within each row of small matrices
+//---------------------------------------------------------------------------
+// k-th permutation (factorial number system) of the entries of every row; t is a mixed-radix index over the rows
+static Csr<double> permuted(const Csr<double> &A, uint64_t t) {
+    Csr<double> Bm = A;
+    for (size_t i = 0; i < A.n; ++i) { size_t L = A.ptr[i + 1] - A.ptr[i]; uint64_t f = 1; for (size_t k = 2; k <= L; ++k) f *= k; uint64_t code = t % f; t /= f;
+        std::vector<ptrdiff_t> pool(L); std::iota(pool.begin(), pool.end(), A.ptr[i]);
+        for (size_t k = 0; k < L; ++k) { uint64_t ff = 1; for (size_t q = 2; q <= L - 1 - k; ++q) ff *= q; size_t pick = (size_t)(code / ff); code %= ff; Bm.col[A.ptr[i] + k] = A.col[pool[pick]]; Bm.val[A.ptr[i] + k] = A.val[pool[pick]]; pool.erase(pool.begin() + pick); } }
+    return Bm;
+}
+static uint64_t perm_count(const Csr<double> &A) { uint64_t t = 1; for (size_t i = 0; i < A.n; ++i) { size_t L = A.ptr[i + 1] - A.ptr[i]; for (size_t k = 2; k <= L; ++k) t *= k; } return t; }
+
+template <class Make> void exhaustive_class(Case &c, const std::string &nm, const Csr<double> &A, const std::vector<Csr<double>> &perms, Make make) {
+    vf::obs_add("classes_seen_exhaustive", nm); decltype(make(A)) p1, p1b; std::vector<double> B1, B1b;
+    try { poison_heap(0x00); p1 = make(A); B1 = action(*p1, A.n, 1); poison_heap(0xFF); p1b = make(A); B1b = action(*p1b, A.n, 1); } catch (const std::exception &) { vf::obs_sum("sorted_reference_threw"); vf::obs_add("sorted_reference_threw_for", nm); return; }
+    Diff d0 = action_diff(B1, B1b); if (!d0.finite || !(d0.scale > 0) || !(d0.rel <= 1e-12)) { vf::obs_sum("reference_not_reproducible"); vf::obs_add("reference_not_reproducible_for", nm); return; }
+    size_t bad = 0, thrown = 0; double worst = 0; std::string what;
+    for (auto &Ash : perms) { try { auto p2 = make(Ash); Diff d = action_diff(B1, action(*p2, A.n, 1)); if (!(d.rel <= 1e-12)) ++bad; worst = std::max(worst, std::isfinite(d.rel) ? d.rel : 1e300); } catch (const std::exception &e) { ++thrown; what = e.what(); } vf::obs_sum("actions_compared"); vf::obs_sum("permutations_enumerated"); }
+    c.check(thrown == 0, nm + ":exception-on-unsorted-rows", "constructor threw on a valid matrix with permuted row entries: " + what, J().n("permutations_throwing", thrown).n("of", perms.size()));
+    c.check(bad == 0, nm + ":action-differs-on-unsorted-rows", "object built from a matrix with permuted row entries acts differently from the one built from the sorted matrix", J().n("permutations_differing", bad).n("of", perms.size()).n("worst_rel", worst));
+}
+
+static void sub_exhaustive() {
+    // matrix 0: 3 x 3 full, non-symmetric, strictly diagonally dominant        (3!)^3 = 216 orders
+    // matrix 1: 4 x 4 cyclic tridiagonal, non-symmetric, 3 entries per row      (3!)^4 = 1296 orders
+    // matrix 2: 2 cells x 2 phases, own 2 x 2 block + same-phase coupling to the other cell, 3 entries per row: 1296 orders (cpr, cpr_drs, schur)
+    std::vector<Csr<double>> mats(3);
+    { std::vector<std::tuple<ptrdiff_t, ptrdiff_t, double>> t = {{0,0,5.0},{0,1,-1.0},{0,2,-2.0},{1,0,-1.5},{1,1,6.0},{1,2,-0.5},{2,0,0.75},{2,1,-2.5},{2,2,7.0}}; mats[0] = vf::from_triplets<double>(3, 3, t); }
+    { std::vector<std::tuple<ptrdiff_t, ptrdiff_t, double>> t; for (int i = 0; i < 4; ++i) { t.emplace_back(i, i, 4.0 + 0.5 * i); t.emplace_back(i, (i + 1) % 4, -1.0 - 0.25 * i); t.emplace_back(i, (i + 3) % 4, -1.5 + 0.125 * i); } mats[1] = vf::from_triplets<double>(4, 4, t); }
+    { std::vector<std::tuple<ptrdiff_t, ptrdiff_t, double>> t; for (int cell = 0; cell < 2; ++cell) for (int k = 0; k < 2; ++k) { int row = cell * 2 + k, o = (1 - cell) * 2 + k; t.emplace_back(row, row, 4.0 + row); t.emplace_back(row, cell * 2 + (1 - k), 0.5 - 0.25 * row); t.emplace_back(row, o, -1.0 - 0.125 * row); } mats[2] = vf::from_triplets<double>(4, 4, t); }
+    long idx = 0;
+    for (int m = 0; m < 3; ++m) { const Csr<double> &A = mats[m]; uint64_t total = perm_count(A); const uint64_t batch = 108;
+        for (uint64_t base = 0; base < total; base += batch, ++idx) {
+            if (!vf::selected("roworder_exhaustive", idx)) continue;
+            Case c("roworder_exhaustive", idx, J().n("matrix", m).n("n", A.n).n("orders_total", total).n("from", base).n("threads", omp_get_max_threads()));
+            std::vector<Csr<double>> perms; for (uint64_t t = base; t < std::min(total, base + batch); ++t) perms.push_back(permuted(A, t));
+            for (auto &Pm : perms) if (!has_diag_and_no_dups(Pm)) { fprintf(stderr, "harness: permuted() produced an invalid matrix\n"); exit(3); }
+            if (m < 2) {
+#define RC(R, name) exhaustive_class(c, std::string("as_preconditioner<") + name + ">", A, perms, [&](const Csr<double> &M) { typedef relaxation::as_preconditioner<B, relaxation::R> P; return std::unique_ptr<P>(new P(M.tie())); })
+                RC(damped_jacobi, RELAX[0]); RC(spai0, RELAX[1]); RC(spai1, RELAX[2]); RC(gauss_seidel, RELAX[3]); RC(ilu0, RELAX[4]); RC(iluk, RELAX[5]); RC(ilut, RELAX[6]); RC(ilup, RELAX[7]); RC(chebyshev, RELAX[8]);
+#undef RC
+                AMG::params ap; ap.coarse_enough = 1; ap.direct_coarse = (m == 0);
+                exhaustive_class(c, "amg<smoothed_aggregation,spai0>", A, perms, [&](const Csr<double> &M) { return std::unique_ptr<AMG>(new AMG(M.tie(), ap)); });
+            } else {
+                { typedef preconditioner::cpr<AMG, SP0> P; typename P::params prm; prm.block_size = 2; exhaustive_class(c, "cpr<amg,spai0>", A, perms, [&](const Csr<double> &M) { return std::unique_ptr<P>(new P(M.tie(), prm)); }); }
+                { typedef preconditioner::cpr_drs<AMG, SP0> P; typename P::params prm; prm.block_size = 2; exhaustive_class(c, "cpr_drs<amg,spai0>", A, perms, [&](const Csr<double> &M) { return std::unique_ptr<P>(new P(M.tie(), prm)); }); }
+                { typedef make_solver<AMG, solver::preonly<B>> US; typedef make_solver<SP0, solver::preonly<B>> PS; typedef preconditioner::schur_pressure_correction<US, PS> P;
+                  for (int type = 1; type <= 2; ++type) { typename P::params prm; prm.type = type; prm.pmask = {0, 1, 0, 1}; exhaustive_class(c, "schur_pressure_correction<type" + std::to_string(type) + ">", A, perms, [&](const Csr<double> &M) { return std::unique_ptr<P>(new P(M.tie(), prm)); }); } }
+            }
+            c.nontrivial((long)perms.size());
+        }
+    }
+    vf::obs_set("roworder_exhaustive_space", "every order of the entries within each row of a 3x3 full matrix (216), a 4x4 cyclic tridiagonal matrix (1296) and a 2-cell 2-phase block system (1296)");
+}
+
 int main(int argc, char **argv) {
     vf::init(argc, argv);
     vf::obs_add("threads_seen", std::to_string(omp_get_max_threads()));
     if (vf::sub_enabled("roworder_relax")) sub_relax();
     if (vf::sub_enabled("roworder_amg")) sub_amg();
     if (vf::sub_enabled("roworder_coupled")) sub_coupled();
+    if (vf::sub_enabled("roworder_exhaustive")) sub_exhaustive();
     return vf::finish();
 }
